@@ -27,9 +27,7 @@ static int heap_ok(unsigned n)
 static unsigned count(unsigned n, datetime_sec dt, unsigned long id)
 {
   unsigned k, c = 0;
-#ifdef NOCOUNT
-  return 0;
-#endif
+
   for (k = 0; k < n; ++k) if (arr[k].dt == dt && arr[k].id == id) ++c;
   return c;
 }
@@ -55,7 +53,9 @@ void h_insert(void)
   r = prioq_insert(&pq, &pe);
   V_ASSERT(r == 1 && pq.len == n0 + 1 && pq.p == arr, "C15: insert adds exactly one element (no reallocation needed here)");
   V_ASSERT(heap_ok(pq.len), "C15: prioq_insert re-establishes heap order");
+#ifndef NOCOUNT
   V_ASSERT(count(pq.len, g.dt, g.id) == c0 + (g.dt == pe.dt && g.id == pe.id), "C15: prioq_insert keeps every element and adds exactly the new one");
+#endif
   V_COVER(n0 == NMAX);
 }
 
@@ -76,6 +76,8 @@ void h_delmin(void)
   prioq_delmin(&pq);
   V_ASSERT(pq.len == (n0 ? n0 - 1 : 0), "C15: delmin removes exactly one element");
   V_ASSERT(heap_ok(pq.len), "C15: prioq_delmin re-establishes heap order");
+#ifndef NOCOUNT
   if (n0) V_ASSERT(count(pq.len, g.dt, g.id) == c0 - (g.dt == m.dt && g.id == m.id), "C15: prioq_delmin removes exactly the root and keeps every other element");
+#endif
   V_COVER(n0 == NMAX + 1);
 }
